@@ -23,7 +23,13 @@ int main(void) {
 #if EREP
   rep_build(&poly.f2, 1, 2, 1, RR); ne = 2; eox[1] = (OI)rep_ex[1]; eoy[1] = (OI)rep_ey[1];
 #endif
+#if TWO        /* a second polygon in the leaf, with another tag: a tag filter keeps exactly the matching one; without a filter both come back, each with its own tag and vertices */
+  OI vx2 = (OI)nd_range(-RR, RR), vy2 = (OI)nd_range(-RR, RR); NUM* pts2 = malloc(sizeof(NUM) * 2); pts2[0] = NUM_OF_INT(vx2); pts2[1] = NUM_OF_INT(vy2);
+  Poly poly2 = {0}; poly2.f0 = tag ^ 1; poly2.f1.f0 = 1; poly2.f1.f1 = 1; poly2.f1.f2 = (void*)pts2;
+  Cell leaf = {0}; uint8_t ln[2] = {'L', 0}; leaf.f0 = ln; Poly* pa[2] = {&poly, &poly2}; leaf.f1.f0 = 2; leaf.f1.f1 = 2; leaf.f1.f2 = (void*)pa;
+#else
   Cell leaf = {0}; uint8_t ln[2] = {'L', 0}; leaf.f0 = ln; Poly* pa[1] = {&poly}; leaf.f1.f0 = 1; leaf.f1.f1 = 1; leaf.f1.f2 = (void*)pa;
+#endif
   /* top cell: one reference to it */
   Ref ref = {0}; ref.f0 = 0; *(Cell**)&ref.f1 = &leaf;
   OI ox = (OI)nd_range(-RR, RR), oy = (OI)nd_range(-RR, RR), m = (OI)nd_range(-2, 2);
@@ -45,6 +51,20 @@ int main(void) {
 #else
   _ZNK5gdstk4Cell12get_polygonsEbblbmRNS_5ArrayIPNS_7PolygonEEE(&top, APPLY, 0, (uint64_t)(int64_t)DEPTH, FILTER != 0, qtag, &res);
 #endif
+#if TWO
+  /* two polygons, no repetitions: the result is the matching subset, each polygon with its own tag at the image of its own vertex */
+  { OI r = REFL ? -1 : 1; int want1 = FILTER != 2, want2 = FILTER != 1; int got1 = 0, got2 = 0;
+    OBS("n", res.f1);
+    CHECK(res.f1 == (uint64_t)(want1 + want2), "exactly the polygons with the requested tag (no filter: both)");
+    for (int i = 0; i < 2; i++) if ((uint64_t)i < res.f1) { Poly* p = ((Poly**)res.f2)[i]; NUM* q = (NUM*)p->f1.f2;
+      CHECK(p != &poly && p != &poly2 && p->f1.f1 == 1 && p->f2.f0 == 0, "fresh copies");
+      int is1 = p->f0 == tag; OI sx_ = is1 ? vx : vx2, sy_ = is1 ? vy : vy2; OI qx = m * sx_, qy = r * m * sy_;
+      CHECK(p->f0 == tag || p->f0 == (tag ^ 1), "a tag of the leaf");
+      CHECK(NUM_EQ(q[0], NUM_OF_INT(qx * C_ - qy * S_ + ox)) && NUM_EQ(q[1], NUM_OF_INT(qx * S_ + qy * C_ + oy)), "each polygon at the image of its own vertex");
+      if (is1) got1++; else got2++; }
+    CHECK(got1 == want1 && got2 == want2, "one copy of each requested polygon");
+    CHECK(NUM_EQ(pts[0], NUM_OF_INT(vx)) && NUM_EQ(pts2[0], NUM_OF_INT(vx2)) && leaf.f1.f1 == 2, "the queried cells are untouched"); }
+#else
   /* denotation of the result: every polygon expanded by whatever repetition it still carries */
   OI gx[8], gy[8]; int ng = 0;
   for (int i = 0; i < 4; i++) if ((uint64_t)i < res.f1) { Poly* p = ((Poly**)res.f2)[i];
@@ -65,6 +85,7 @@ int main(void) {
   for (int i = 0; i < 4; i++) if (i < nw) { int want = 0, have = 0; for (int j = 0; j < 4; j++) { if (j < nw && wx[j] == wx[i] && wy[j] == wy[i]) want++; if (j < ng && gx[j] == wx[i] && gy[j] == wy[i]) have++; }
     CHECK(want == have, "the shapes returned are exactly the child's shapes under the composed affine maps and all repetition offsets"); }
   CHECK(NUM_EQ(pts[0], NUM_OF_INT(vx)) && NUM_EQ(pts[1], NUM_OF_INT(vy)) && leaf.f1.f1 == 1 && top.f2.f1 == 1, "the queried cells are untouched");
+#endif
   WITNESS_POINT();
   return 0;
 }
